@@ -18,6 +18,7 @@ import (
 	"context"
 	"crypto/ed25519"
 	"crypto/sha256"
+	"encoding/hex"
 	"fmt"
 	"os"
 	"sync"
@@ -63,6 +64,15 @@ type vfFix struct {
 	txs    []*types.Transaction   // transactions delivered to the mempool module
 	chain  map[int64]*types.Block // what the blockchain module can serve
 	tip    int64
+	// verdict of the blockchain module on a broadcast block, by block hash (hex): absent / "" = accepted, otherwise the
+	// error text of the rejection; fbLog records (publisher, verdict) in the order the verdicts were given
+	verdicts map[string]string
+	fbLog    []vfVerdict
+}
+
+type vfVerdict struct {
+	pid     string
+	verdict string
 }
 
 var (
@@ -127,6 +137,7 @@ func (f *vfFix) reset() {
 	f.posted, f.txs = nil, nil
 	f.chain = map[int64]*types.Block{}
 	f.tip = 0
+	f.verdicts, f.fbLog = map[string]string{}, nil
 	f.mu.Unlock()
 }
 
@@ -184,12 +195,16 @@ func (f *vfFix) onMempool(cli queue.Client, msg *queue.Message) {
 func (f *vfFix) onBlockchain(cli queue.Client, msg *queue.Message) {
 	switch msg.Ty {
 	case types.EventBroadcastAddBlock:
+		// BlockChain.addBlock answers with Reply{IsOk} / Reply{Msg: error text}
+		verdict := ""
 		f.mu.Lock()
 		if bp, ok := msg.GetData().(*types.BlockPid); ok {
 			f.posted = append(f.posted, bp)
+			verdict = f.verdicts[hex.EncodeToString(bp.Block.Hash(f.cfg))]
+			f.fbLog = append(f.fbLog, vfVerdict{pid: bp.Pid, verdict: verdict})
 		}
 		f.mu.Unlock()
-		msg.Reply(cli.NewMessage("", types.EventReply, &types.Reply{IsOk: true}))
+		msg.Reply(cli.NewMessage("", types.EventReply, &types.Reply{IsOk: verdict == "", Msg: []byte(verdict)}))
 	case types.EventGetBlocks:
 		req := msg.GetData().(*types.ReqBlocks)
 		f.mu.Lock()
